@@ -51,7 +51,7 @@ CHECKS = {
     },
     "C04": {
         "test": "TestC04", "level": "translation_validation", "needs_node": True,
-        "quick": {"shards": 8, "checks": 500, "timeout": 900},
+        "quick": {"shards": 8, "checks": 2000, "timeout": 900},
         "thorough": {"shards": 16, "checks": 8000, "timeout": 3400},
         "rule": "bundles of the common subset (boolean operands for and/or/not, same-kind equality, no collection printing, no key-order dependence, "
                 "ints within 2^53, directives noAutoescape/id/escapeHtml/truncate/changeNewlineToBr/insertWordBreaks) over the whole command grammar "
@@ -177,7 +177,7 @@ CHECKS = {
     },
     "C13": {
         "test": "TestC13", "level": "exploration",
-        "quick": {"shards": 8, "checks": 120, "timeout": 900},
+        "quick": {"shards": 8, "checks": 400, "timeout": 900},
         "thorough": {"shards": 16, "checks": 2500, "timeout": 3400},
         "rule": "bundles of 1-3 files with many cross-file calls (ES6 imports), messages with colliding placeholder names, map literals, optionally one "
                 "injected compile error; each compiled 12 (thorough 30) more times in-process, under every permutation of file order (exhaustive up "
